@@ -297,7 +297,7 @@ type c04Run struct {
 	log                                        *c04Log
 	fixTd                                      string // total difficulty (from the tree spec) of the head that repeated feeding of the history converges to
 	nreopen, nconv, nclosure, nKnownA, nKnownB int
-	nnodes                                     int
+	nnodes, nresume                            int
 	msid                                       string // model session replaying the same history (archive, model attached)
 }
 
@@ -462,6 +462,57 @@ func (r *c04Run) feed(bc *core.BlockChain) string {
 		}
 	}
 	return ""
+}
+
+// feedResume offers the history the way a downloader resumes a sync: of every delivery only the part
+// the reopened node does not have yet, starting at the first unknown block whose parent it knows.
+// Every offered valid block must end up stored and may not be heavier than the head afterwards.
+// It returns a description of the first block for which that fails ("" if none).
+func (r *c04Run) feedResume(bc *core.BlockChain) (problem string, panicText string) {
+	t := r.t
+	known := func(n int) bool { return n == 0 || bc.HasBlock(t.Blocks[n].Hash(), t.Num[n]) }
+	for k, op := range r.sc.Ops {
+		start := -1
+		for i, n := range op.Nodes {
+			if !known(n) {
+				if known(t.Spec[n].Parent) {
+					start = i
+				}
+				break
+			}
+		}
+		if start < 0 {
+			continue
+		}
+		var sub types.Blocks
+		var nodes []int
+		for _, n := range op.Nodes[start:] {
+			if !t.Spec[n].Valid {
+				break
+			}
+			sub = append(sub, t.Blocks[n])
+			nodes = append(nodes, n)
+		}
+		if len(sub) == 0 {
+			continue
+		}
+		var ierr error
+		panicked, pv := vh.CatchPanic(func() {
+			mrand.Seed(op.Seed)
+			_, ierr = bc.InsertChain(sub)
+		})
+		if panicked {
+			return "", fmt.Sprintf("resumed op %d: %v", k, pv)
+		}
+		r.nresume++
+		head, ok := t.ByHash[bc.CurrentBlock().Hash()]
+		for _, n := range nodes {
+			if !bc.HasBlock(t.Blocks[n].Hash(), t.Num[n]) || (ok && t.TrueTd[n].Cmp(t.TrueTd[head]) > 0) {
+				return fmt.Sprintf("delivery %d resumed at node %d: node %d (valid, parent stored) is not stored or is heavier than the head (node %d) afterwards; InsertChain returned %v", k, nodes[0], n, head, ierr), ""
+			}
+		}
+	}
+	return "", ""
 }
 
 func (r *c04Run) headTd(bc *core.BlockChain) string {
@@ -647,6 +698,11 @@ func (r *c04Run) checkPrefix(L []Rec, opOf []int, p int, o prefixOpts) string {
 		// step 7
 		if o.converge {
 			r.nconv++
+			if prob, rpt := r.feedResume(bc); rpt != "" {
+				bad(fmt.Sprintf("reimport-panics/%s/%s", tag, clip60(rpt)), "resuming the import on the reopened chain panics: "+rpt, nil)
+			} else if prob != "" {
+				bad("resume-import-rejected/"+tag, "the sync resumed after the restart on the first blocks the node does not have: a valid block whose parent is stored is not accepted, or the head stays lighter than it: "+prob, nil)
+			}
 			td, rounds, pt := r.feedToFixpoint(bc, r.fixTd)
 			if pt != "" {
 				bad(fmt.Sprintf("reimport-panics/%s/%s", tag, clip60(pt)), "feeding the original blocks to the reopened chain panics: "+pt, nil)
@@ -742,6 +798,7 @@ func c04RunScenario(c *vh.Ctx, sc *Scenario, cfg string, plan c04Plan, jobDir st
 	c.Res.Distribution["reimports-to-convergence"] += r.nconv
 	c.Res.Distribution["closure-roots-iterated"] += r.nclosure
 	c.Res.Distribution["closure-trie-nodes-checked"] += r.nnodes
+	c.Res.Distribution["resumed-deliveries"] += r.nresume
 	c.Res.Distribution["known-a:"+sigHeadBeforeBatch] += r.nKnownA
 	c.Res.Distribution["known-b:"+sigCanonBeforeHead] += r.nKnownB
 	c.Sample(map[string]interface{}{"scenario": sc.Name, "config": cfg, "blocks": len(sc.Nodes) - 1, "ops": len(sc.Ops), "write_records": len(L), "prefixes_reopened": r.nreopen,
@@ -1096,7 +1153,7 @@ func MainC04() {
 		c04Model = c.StartModel()
 		defer c04Model.Close()
 	}
-	c.Res.Rule = "a case is one crash point: a prefix of the write log (direct puts/deletes and atomic batch flushes, Stop included) of a crash-free run of a history of InsertChain calls over a block tree built with core.GenerateChain (a scripted tree forcing a reorganisation to a longer and to a shorter-but-heavier branch; random trees with branch lengths 1-8, longer-lighter / shorter-heavier / tied branches, shared transactions, invalid and orphan-first deliveries; contracts with code and no storage / with storage and their own code / sharing one code hash / with storage cleared again (archive import, pruning Stop(), clean shutdown); a block whose contract creation writes 4000 storage slots so that ONE trie commit - in WriteBlockWithState on an archive node, in Stop() on a pruning node - is split over several batch flushes, with every prefix inside that commit; thorough: a 150-block chain with a fork so that a pruning node flushes), under archive and pruning cache configurations; the prefix is materialised as a fresh disk, core.NewBlockChain reopens it (panic, error, 10 s watchdog) and the statements are evaluated directly: head = last value written to LastBlock in the prefix (pruning: nearest ancestor with a complete state), complete state iteration at the head root on fresh caches (every account: balance, nonce, whole storage trie, code blob by code hash, hash checked), number index = ancestry below the head, header/body/td of every ancestor, closure of every state root present on disk and of every stored trie node (all its children stored), and re-feeding the history converges to the total difficulty repeated feeding reaches on the complete disk.  A second kind of case makes the n-th write fail in a child process (log.Crit exits): every write index of one short archive import and of one pruning import + Stop() in the quick tier; 25 s deadlock watchdog, then the same oracle on the writes before the failed one, on the final database of a process that lived on, and on every crash prefix of what that process wrote after the failure (a block InsertChain reported as imported must be the head after a restart).  Non-trivial = the prefix ends right after a write to the head pointer or the number index, or a failing write; distinct by (scenario, configuration, index)"
+	c.Res.Rule = "a case is one crash point: a prefix of the write log (direct puts/deletes and atomic batch flushes, Stop included) of a crash-free run of a history of InsertChain calls over a block tree built with core.GenerateChain (a scripted tree forcing a reorganisation to a longer and to a shorter-but-heavier branch; random trees with branch lengths 1-8, longer-lighter / shorter-heavier / tied branches, shared transactions, invalid and orphan-first deliveries; contracts with code and no storage / with storage and their own code / sharing one code hash / with storage cleared again (archive import, pruning Stop(), clean shutdown); a block whose contract creation writes 4000 storage slots so that ONE trie commit - in WriteBlockWithState on an archive node, in Stop() on a pruning node - is split over several batch flushes, with every prefix inside that commit; thorough: a 150-block chain with a fork so that a pruning node flushes), under archive and pruning cache configurations; the prefix is materialised as a fresh disk, core.NewBlockChain reopens it (panic, error, 10 s watchdog) and the statements are evaluated directly: head = last value written to LastBlock in the prefix (pruning: nearest ancestor with a complete state), complete state iteration at the head root on fresh caches (every account: balance, nonce, whole storage trie, code blob by code hash, hash checked), number index = ancestry below the head, header/body/td of every ancestor, closure of every state root present on disk and of every stored trie node (all its children stored), re-feeding converges - first resumed downloader-style (only what the node lacks, from the first unknown block with a known parent; every offered valid block must end up stored and not heavier than the head), then the whole history - to the total difficulty repeated feeding reaches on the complete disk.  A second kind of case makes the n-th write fail in a child process (log.Crit exits): every write index of one short archive import and of one pruning import + Stop() in the quick tier; 25 s deadlock watchdog, then the same oracle on the writes before the failed one, on the final database of a process that lived on, and on every crash prefix of what that process wrote after the failure (a block InsertChain reported as imported must be the head after a restart).  Non-trivial = the prefix ends right after a write to the head pointer or the number index, or a failing write; distinct by (scenario, configuration, index)"
 	c.Assume("LevelDB batches are atomic and writes are ordered; in-memory database stands in for LevelDB")
 	c.Assume("header verification by the full-fake engine; tie-break coin controlled through math/rand.Seed (GODEBUG randseednop=0); blocks come from core.GenerateChain")
 	c.Assume("convergence reference: the total difficulty that feeding the history repeatedly converges to (a history delivering a child before its parent accepts more on the second feed than the crash-free run did); ties may resolve to either block")
